@@ -56,12 +56,12 @@ fn main() {
             "signed-gossip freshness depends on the wall clock and is not part of the limit reference",
         ],
         parts: vec![
-            PropPart::new("codec", 100_000, 3_000_000, rt::codec_strategy, rt::codec_check).boxed(),
-            PropPart::new("snapvec", 8_000, 200_000, rt::snap_strategy, rt::snap_check).boxed(),
+            PropPart::new("codec", 100_000, 2_000_000, rt::codec_strategy, rt::codec_check).boxed(),
+            PropPart::new("snapvec", 8_000, 100_000, rt::snap_strategy, rt::snap_check).boxed(),
             PropPart::new("wal", 16_000, 400_000, rt::wal_strategy, rt::wal_check).boxed(),
             PropPart::new("frame", 60_000, 1_500_000, rt::frame_strategy, rt::frame_check).boxed(),
             PropPart::new("tt", 40_000, 1_000_000, rt::tt_strategy, rt::tt_check).boxed(),
-            PropPart::new("garbage", 100_000, 2_000_000, garbage::garbage_strategy, garbage::garbage_check).boxed(),
+            PropPart::new("garbage", 100_000, 1_500_000, garbage::garbage_strategy, garbage::garbage_check).boxed(),
             Box::new(garbage::corpus_part()),
             Box::new(garbage::fuzz_part()),
         ],
